@@ -99,8 +99,8 @@ Proof.
     | None => false
     end = true -> cleaner s a t).
   { intros Hc. destruct (find_coord t (coords s)) as [c|] eqn:Ec; [|discriminate].
-    destruct (c_cl_runner c) as [b|] eqn:Eb; [|discriminate]. exists c. split; [reflexivity|].
-    rewrite Eb. f_equal. lia. }
+    destruct (c_cl_runner c) as [b|] eqn:Eb; [|discriminate]. exists c. split; [exact Ec|].
+    assert (b = a) by lia. now subst b. }
   destruct op; destruct (find_file t (files s)) as [f|] eqn:Ef; try discriminate H.
   - (* open *)
     destruct (match find_task a (tasks s) with Some _ => _ | None => _ end) eqn:Ew in H; [|discriminate].
@@ -138,3 +138,1105 @@ Proof.
     cbn [files set_coords set_tasks set_sems set_shutdown set_reqs set_uploads];
     rewrite ?bump_files; try reflexivity.
 Qed.
+
+(** ** the per-file step relation *)
+Inductive fstepE (s : state) (t : Z) : event -> filest -> filest -> Prop :=
+  | fe_refl e f : fstepE s t e f f
+  | fe_write a f : busy s a = false -> io_writer s a t -> f_open f = true ->
+      fstepE s t (EFs a t FWrite) f (f_write f)
+  | fe_close a f : busy s a = false -> io_finalizer s a t \/ cleaner s a t ->
+      fstepE s t (EFs a t FClose) f (f_close f)
+  | fe_rename a f : busy s a = false -> io_finalizer s a t -> f_open f = false -> f_exists f = true ->
+      fstepE s t (EFs a t FRename) f (f_rename f)
+  | fe_remove a f : busy s a = false -> cleaner s a t ->
+      fstepE s t (EFs a t FRemove) f (f_remove f).
+
+Lemma file_origin s e s' t f' :
+  step s e = Some s' -> find_file t (files s') = Some f' ->
+  (exists f, find_file t (files s) = Some f /\ fstepE s t e f f') \/
+  (find_file t (files s) = None /\
+   exists a, e = EFs a t FOpen /\ io_writer s a t /\ busy s a = false /\ f' = f_new t).
+Proof.
+  intros H Hf'. pose proof (step_files_frame _ _ _ H) as Hfr.
+  destruct e; try (rewrite Hfr in Hf'; left; exists f'; split; [exact Hf'|constructor]).
+  clear Hfr. destruct (efs_inv _ _ _ _ _ H) as (Hb & _ & _ & Hm).
+  destruct (Z.eq_dec t0 t) as [->|Hne].
+  - destruct op; destruct (find_file t (files s)) as [f|] eqn:Ef; try contradiction.
+    + destruct Hm as [Hw Hfs]. right. split; [reflexivity|]. exists a.
+      rewrite Hfs, find_file_app, Ef in Hf'. cbn [f_t f_new] in Hf'. rewrite Z.eqb_refl in Hf'.
+      injection Hf' as <-. auto.
+    + destruct Hm as (Hw & Ho & Hfs). left. exists f. split; [reflexivity|].
+      rewrite Hfs, find_file_upd, Z.eqb_refl, Ef in Hf' by reflexivity. injection Hf' as <-. now constructor.
+    + destruct Hm as (Hw & Hfs). left. exists f. split; [reflexivity|].
+      rewrite Hfs, find_file_upd, Z.eqb_refl, Ef in Hf' by reflexivity. injection Hf' as <-. now constructor.
+    + destruct Hm as (Hw & Ho & He & Hfs). left. exists f. split; [reflexivity|].
+      rewrite Hfs, find_file_upd, Z.eqb_refl, Ef in Hf' by reflexivity. injection Hf' as <-. now constructor.
+    + destruct Hm as (Hw & Hfs). left. exists f. split; [reflexivity|].
+      rewrite Hfs, find_file_upd, Z.eqb_refl, Ef in Hf' by reflexivity. injection Hf' as <-. now constructor.
+    + destruct Hm as (Hw & Hfs). rewrite Hfs, Ef in Hf'. discriminate.
+  - (* an event on the file of another transfer *)
+    left. exists f'. split; [|constructor].
+    assert (E : t =? t0 = false) by lia.
+    destruct op; destruct (find_file t0 (files s)) as [f0|] eqn:Ef0; try contradiction.
+    + destruct Hm as [_ Hfs]. rewrite Hfs, find_file_app in Hf'.
+      destruct (find_file t (files s)) as [f|]; [exact Hf'|].
+      cbn [f_t f_new] in Hf'. assert (E2 : t0 =? t = false) by lia. rewrite E2 in Hf'. discriminate.
+    + destruct Hm as (_ & _ & Hfs). now rewrite Hfs, find_file_upd, E in Hf' by reflexivity.
+    + destruct Hm as (_ & Hfs). now rewrite Hfs, find_file_upd, E in Hf' by reflexivity.
+    + destruct Hm as (_ & _ & _ & Hfs). now rewrite Hfs, find_file_upd, E in Hf' by reflexivity.
+    + destruct Hm as (_ & Hfs). now rewrite Hfs, find_file_upd, E in Hf' by reflexivity.
+    + destruct Hm as (_ & Hfs). now rewrite Hfs in Hf'.
+Qed.
+
+Lemma file_persists s e s' t f :
+  step s e = Some s' -> find_file t (files s) = Some f ->
+  exists f', find_file t (files s') = Some f' /\ fstepE s t e f f'.
+Proof.
+  intros H Hf. pose proof (step_files_frame _ _ _ H) as Hfr.
+  destruct e; try (rewrite Hfr; exists f; split; [exact Hf|constructor]).
+  clear Hfr. destruct (efs_inv _ _ _ _ _ H) as (Hb & _ & _ & Hm).
+  destruct (Z.eq_dec t0 t) as [->|Hne].
+  - rewrite Hf in Hm. destruct op; try contradiction.
+    + destruct Hm as (Hw & Ho & Hfs). exists (f_write f).
+      rewrite Hfs, find_file_upd, Z.eqb_refl, Hf by reflexivity. split; [reflexivity|now constructor].
+    + destruct Hm as (Hw & Hfs). exists (f_close f).
+      rewrite Hfs, find_file_upd, Z.eqb_refl, Hf by reflexivity. split; [reflexivity|now constructor].
+    + destruct Hm as (Hw & Ho & He & Hfs). exists (f_rename f).
+      rewrite Hfs, find_file_upd, Z.eqb_refl, Hf by reflexivity. split; [reflexivity|now constructor].
+    + destruct Hm as (Hw & Hfs). exists (f_remove f).
+      rewrite Hfs, find_file_upd, Z.eqb_refl, Hf by reflexivity. split; [reflexivity|now constructor].
+  - exists f. split; [|constructor]. assert (E : t =? t0 = false) by lia.
+    destruct op; destruct (find_file t0 (files s)) as [f0|] eqn:Ef0; try contradiction.
+    + destruct Hm as [_ Hfs]. now rewrite Hfs, find_file_app, Hf.
+    + destruct Hm as (_ & _ & Hfs). now rewrite Hfs, find_file_upd, E by reflexivity.
+    + destruct Hm as (_ & Hfs). now rewrite Hfs, find_file_upd, E by reflexivity.
+    + destruct Hm as (_ & _ & _ & Hfs). now rewrite Hfs, find_file_upd, E by reflexivity.
+    + destruct Hm as (_ & Hfs). now rewrite Hfs, find_file_upd, E by reflexivity.
+    + destruct Hm as (_ & Hfs). now rewrite Hfs.
+Qed.
+
+(** a record never disappears; a missing record stays missing unless an IO
+    write task opens the file *)
+Lemma file_none_back s e s' t :
+  step s e = Some s' -> find_file t (files s') = None -> find_file t (files s) = None.
+Proof.
+  intros H Hn. destruct (find_file t (files s)) as [f|] eqn:Ef; [|reflexivity].
+  destruct (file_persists _ _ _ _ _ H Ef) as (f' & Hf' & _). congruence.
+Qed.
+
+(** ** the invariant of one file record *)
+Record finv (t : Z) (f : filest) : Prop := {
+  fi_t : f_t f = t;
+  fi_ex : f_exists f = true -> f_renamed f = false /\ f_removed f = false;
+  fi_ren_open : f_renamed f = true -> f_open f = false;
+  fi_renames : f_renames f = if f_renamed f then 1 else 0;
+  fi_rm : f_removed f = true -> f_exists f = false;
+  fi_wac : f_write_after_close f = false
+}.
+
+Lemma finv_new t : finv t (f_new t).
+Proof. constructor; cbn; auto; discriminate. Qed.
+
+Lemma finv_step s t e f f' : finv t f -> fstepE s t e f f' -> finv t f'.
+Proof.
+  intros [I1 I2 I3 I4 I6 I5] H. destruct H; constructor; cbn; auto; try discriminate.
+  match goal with He : f_exists f = true |- _ => destruct (I2 He) as [Hr _]; rewrite Hr in I4; lia end.
+Qed.
+
+Definition files_inv (s : state) : Prop :=
+  forall t f, find_file t (files s) = Some f -> finv t f.
+
+Lemma files_inv_step s e s' : files_inv s -> step s e = Some s' -> files_inv s'.
+Proof.
+  intros I H t f' Hf'.
+  destruct (file_origin _ _ _ _ _ H Hf') as [(f & Hf & Hfs)|(_ & a & _ & _ & _ & ->)].
+  - eapply finv_step; [eapply I; exact Hf|exact Hfs].
+  - apply finv_new.
+Qed.
+
+Lemma files_inv_reachable a b c d e f g h s : reachable (init a b c d e f g h) s -> files_inv s.
+Proof.
+  apply invariant_reachable; [intros t x Hx; discriminate|].
+  intros s0 ev s1 I H. eapply files_inv_step; eauto.
+Qed.
+
+(** ** monotone facts about one record *)
+Lemma renamed_mono s t e f f' : fstepE s t e f f' -> f_renamed f = true -> f_renamed f' = true.
+Proof. intros H Hr. destruct H; cbn; auto. Qed.
+
+Lemma not_exists_mono s t e f f' : fstepE s t e f f' -> f_exists f = false -> f_exists f' = false.
+Proof. intros H Hr. destruct H; cbn; auto. Qed.
+
+Lemma removed_mono s t e f f' : fstepE s t e f f' -> f_removed f = true -> f_removed f' = true.
+Proof. intros H Hr. destruct H; cbn; auto. rewrite Hr. apply orb_true_r. Qed.
+
+(** the view used by the statements *)
+Definition published (s : state) (t : Z) : bool :=
+  match find_file t (files s) with Some f => f_renamed f | None => false end.
+Definition temp_exists (s : state) (t : Z) : bool :=
+  match find_file t (files s) with Some f => f_exists f | None => false end.
+Definition writes_of (s : state) (t : Z) : Z :=
+  match find_file t (files s) with Some f => f_writes f | None => 0 end.
+
+Lemma published_step s e s' t : step s e = Some s' -> published s t = true -> published s' t = true.
+Proof.
+  unfold published. intros H. destruct (find_file t (files s)) as [f|] eqn:Ef; [|discriminate].
+  destruct (file_persists _ _ _ _ _ H Ef) as (f' & -> & Hfs). eapply renamed_mono; eauto.
+Qed.
+
+Lemma published_run tr : forall s s2 t, run s tr = Some s2 -> published s t = true -> published s2 t = true.
+Proof.
+  induction tr as [|e tr IH]; intros s s2 t Hr Hp; cbn [run] in Hr.
+  - now injection Hr as <-.
+  - destruct (step s e) as [s1|] eqn:Es; [|discriminate]. eapply IH; [exact Hr|]. eapply published_step; eauto.
+Qed.
+
+(* ================================================================== *)
+(** * Part B.  Publication, writers, temp files *)
+
+(** an invariant along a run, with a side condition known at every prefix *)
+Lemma run_invariant_under (Q P : state -> Prop) s :
+  (forall tr1 s1, run s tr1 = Some s1 -> Q s1) -> P s ->
+  (forall s1 e s1', Q s1 -> P s1 -> step s1 e = Some s1' -> P s1') ->
+  forall tr s2, run s tr = Some s2 -> P s2.
+Proof.
+  intros HQ HP Hstep tr. revert s HQ HP.
+  induction tr as [|e tr IH]; intros s HQ HP s2 Hr; cbn [run] in Hr.
+  - now injection Hr as <-.
+  - destruct (step s e) as [s1|] eqn:Es; [|discriminate].
+    apply (IH s1); [| |exact Hr].
+    + intros tr1 s1' Hr1. apply (HQ (e :: tr1)). cbn [run]. now rewrite Es.
+    + eapply Hstep; [apply (HQ []); reflexivity|exact HP|exact Es].
+Qed.
+
+Lemma reachable_run s0 s tr s2 : reachable s0 s -> run s tr = Some s2 -> reachable s0 s2.
+Proof. intros [tr0 H0] Hr. exists (tr0 ++ tr). now rewrite run_app, H0. Qed.
+
+(** ** F1: only the rename publishes *)
+Lemma publish_only_by_rename s e s' t :
+  step s e = Some s' -> published s t = false -> published s' t = true ->
+  exists a F, e = EFs a t FRename /\ busy s a = false /\
+    find_task a (tasks s) = Some F /\ k_t F = t /\ k_st F = TMain /\ k_kind F = KIOFinal.
+Proof.
+  unfold published. intros H Hp Hp'.
+  destruct (find_file t (files s')) as [f'|] eqn:Ef'; [|discriminate].
+  destruct (file_origin _ _ _ _ _ H Ef') as [(f & Hf & Hfs)|(_ & a & _ & _ & _ & ->)]; [|discriminate].
+  rewrite Hf in Hp. destruct Hfs; cbn in Hp'; try congruence.
+  match goal with Hfin : io_finalizer _ _ _ |- _ => destruct Hfin as (F & HF & Ht & Hst & Hk) end.
+  exists a, F. auto 10.
+Qed.
+
+Theorem renames_at_most_one a b c d e0 f0 g h s t f :
+  reachable (init a b c d e0 f0 g h) s -> find_file t (files s) = Some f ->
+  f_renames f = (if f_renamed f then 1 else 0) /\ f_renames f <= 1 /\
+  (f_renamed f = true -> f_exists f = false /\ f_open f = false).
+Proof.
+  intros R Hf. destruct (files_inv_reachable _ _ _ _ _ _ _ _ _ R t f Hf) as [_ I2 I3 I4 _ _].
+  split; [exact I4|]. split; [rewrite I4; destruct (f_renamed f); lia|].
+  intros Hr. split; [|auto]. destruct (f_exists f) eqn:Ee; [|reflexivity].
+  destruct (I2 eq_refl). congruence.
+Qed.
+
+Lemma final_inv_reachable a b c d e0 f0 g h s : reachable (init a b c d e0 f0 g h) s -> final_inv s.
+Proof.
+  apply invariant_reachable; [intros kf f k x Hf; discriminate|].
+  intros s1 ev s2 I H. eapply final_inv_step; eauto.
+Qed.
+
+(** a transfer has at most one final task (from the [no_final_yet] guard) *)
+Theorem final_task_unique a b c d e0 f0 g h s k1 x1 k2 x2 :
+  reachable (init a b c d e0 f0 g h) s ->
+  find_task k1 (tasks s) = Some x1 -> find_task k2 (tasks s) = Some x2 ->
+  k_final x1 = true -> k_final x2 = true -> k_t x1 = k_t x2 -> k1 = k2.
+Proof.
+  intros R H1 H2 F1 F2 Ht. destruct (Z.eq_dec k1 k2) as [E|Hne]; [exact E|exfalso].
+  destruct (final_inv_reachable _ _ _ _ _ _ _ _ _ R k2 x2 k1 x1 H2 H1 F2 Ht Hne) as [Hn _]. congruence.
+Qed.
+
+(** ** who renamed: a task of kind KIOFinal that has reached its main *)
+Definition at_or_after_main (v : tst) : bool :=
+  match v with TMain | TFailed | TPost | TAnn | TAnnDone | TEnded => true | _ => false end.
+
+Lemma at_or_after_main_step s e x x' :
+  tstepE s e x x' -> at_or_after_main (k_st x) = true -> at_or_after_main (k_st x') = true.
+Proof.
+  intros H Hs. destruct H; cbn; auto;
+    try (match goal with Hq : k_st _ = _ |- _ => rewrite Hq in Hs; discriminate end).
+Qed.
+
+(** a task in its main (or whose main raised) has [k_ran_main]; the flag stays *)
+Definition ran_inv (s : state) : Prop :=
+  forall k x, find_task k (tasks s) = Some x -> k_st x = TMain \/ k_st x = TFailed -> k_ran_main x = true.
+
+Lemma ran_inv_step s e s' : ran_inv s -> step s e = Some s' -> ran_inv s'.
+Proof.
+  intros I H k x' Hx' Hst.
+  destruct (task_origin _ _ _ _ _ H Hx') as [(x & Hx & Hts)|(_ & t & g & a & fin & deps & kind & _ & ->)].
+  2:{ cbn in Hst. destruct (stage_eqb g SInline); destruct Hst; discriminate. }
+  pose proof (I k x Hx) as Hold.
+  destruct Hts; cbn [k_st k_ran_main with_st with_flags with_phase with_permit with_assoc with_released] in *;
+    auto; try (destruct Hst; discriminate).
+Qed.
+
+Lemma ran_inv_reachable a b c d e0 f0 g h s : reachable (init a b c d e0 f0 g h) s -> ran_inv s.
+Proof.
+  apply invariant_reachable; [intros k x Hx; discriminate|].
+  intros s1 ev s2 I H. eapply ran_inv_step; eauto.
+Qed.
+
+Lemma ran_main_keeps s e x x' :
+  tstepE s e x x' -> at_or_after_main (k_st x) = true -> k_ran_main x = true -> k_ran_main x' = true.
+Proof.
+  intros H Hs Hr. destruct H; cbn; auto;
+    try (match goal with Hq : k_st _ = _ |- _ => rewrite Hq in Hs; discriminate end).
+Qed.
+
+Definition renamer_inv (s : state) : Prop :=
+  forall t f, find_file t (files s) = Some f -> f_renamed f = true ->
+  exists kf F, find_task kf (tasks s) = Some F /\ k_t F = t /\ k_kind F = KIOFinal /\
+               at_or_after_main (k_st F) = true /\ k_ran_main F = true.
+
+Lemma renamer_inv_step s e s' : ran_inv s -> renamer_inv s -> step s e = Some s' -> renamer_inv s'.
+Proof.
+  intros RI I H t f' Hf' Hr.
+  assert (Keep : forall kf F, find_task kf (tasks s) = Some F -> k_t F = t -> k_kind F = KIOFinal ->
+            at_or_after_main (k_st F) = true -> k_ran_main F = true ->
+            exists kf' F', find_task kf' (tasks s') = Some F' /\ k_t F' = t /\ k_kind F' = KIOFinal /\
+                           at_or_after_main (k_st F') = true /\ k_ran_main F' = true).
+  { intros kf F HF Ht Hk Hs Hran. destruct (task_persists _ _ _ _ _ H HF) as (F' & HF' & Hts). statics Hts.
+    exists kf, F'. repeat split; try congruence; [eapply at_or_after_main_step|eapply ran_main_keeps]; eauto. }
+  destruct (file_origin _ _ _ _ _ H Hf') as [(f & Hf & Hfs)|(_ & a & _ & _ & _ & ->)]; [|discriminate Hr].
+  destruct (f_renamed f) eqn:Er.
+  - destruct (I t f Hf Er) as (kf & F & HF & Ht & Hk & Hs & Hran). eapply Keep; eauto.
+  - destruct Hfs; cbn in Hr; try congruence.
+    match goal with Hfin : io_finalizer _ _ _ |- _ => destruct Hfin as (F & HF & Ht & Hst & Hk) end.
+    apply (Keep a F HF Ht Hk); [now rewrite Hst|apply (RI a F HF); now left].
+Qed.
+
+Lemma renamer_inv_reachable a b c d e0 f0 g h s : reachable (init a b c d e0 f0 g h) s -> renamer_inv s.
+Proof.
+  apply (invariant_reachable2 ran_inv); [apply ran_inv_reachable|intros t x Hx; discriminate|].
+  intros s1 ev s2 Q I H. eapply renamer_inv_step; eauto.
+Qed.
+
+(** ** guard inversions for the kind guards of [ESubmit] / [ESetResult] *)
+Lemma submit_kind_inv s a k t g final deps kind s' :
+  step s (ESubmit a k t g final deps kind) = Some s' ->
+  (kind = KIOFinal -> final = true) /\
+  (kind = KIOWrite -> exists p, find_task a (tasks s) = Some p /\ k_st p = TMain /\ k_kind p = KGet).
+Proof.
+  intros H. cbn [step] in H. inv H. clear H. split_ands.
+  match goal with Hk : negb (kind =? KIOFinal) || final = true |- _ => rename Hk into HK1 end.
+  match goal with Hk : negb (kind =? KIOWrite) || _ = true |- _ => rename Hk into HK2 end.
+  split.
+  - intros ->. exact HK1.
+  - intros ->. cbn [negb Z.eqb KIOWrite Pos.eqb orb] in HK2.
+    destruct (find_task a (tasks s)) as [p|]; [|discriminate]. apply andb_prop in HK2 as [Hst Hk].
+    exists p. split; [reflexivity|]. split; [now apply tst_eqb_true|lia].
+Qed.
+
+Lemma setresult_inv s k s' :
+  step s (ESetResult k) = Some s' ->
+  exists x, find_task k (tasks s) = Some x /\ k_st x = TMain /\ k_final x = true /\
+    files s' = files s /\ tasks s' = tasks s /\
+    (k_kind x = KIOFinal -> forall f, find_file (k_t x) (files s) = Some f -> f_renamed f = true).
+Proof.
+  intros H. pose proof (step_files_frame _ _ _ H) as Hfr. cbn in Hfr.
+  cbn [step] in H. apply busy_false_of_if in H as [_ H].
+  destruct (find_task k (tasks s)) as [x|]; [|discriminate].
+  destruct (_ && _) eqn:Eg in H; [|discriminate].
+  apply andb_prop in Eg as [Eg G2]. apply andb_prop in Eg as [Hst Hfin].
+  exists x. split; [reflexivity|]. split; [now apply tst_eqb_true|]. split; [exact Hfin|].
+  split; [exact Hfr|]. split; [eapply on_coord_tasks; eauto|].
+  intros Hk f Hf. rewrite Hk, Hf in G2. exact G2.
+Qed.
+
+(** ** every task of kind KIOFinal is a final task (download.py:
+    get_final_io_task of every output manager passes is_final=True) *)
+Definition iofinal_final (s : state) : Prop :=
+  forall k x, find_task k (tasks s) = Some x -> k_kind x = KIOFinal -> k_final x = true.
+
+Lemma iofinal_final_step s e s' : iofinal_final s -> step s e = Some s' -> iofinal_final s'.
+Proof.
+  intros I H k x' Hx' Hk.
+  destruct (task_origin _ _ _ _ _ H Hx') as [(x & Hx & Hts)|(_ & t & g & a & fin & deps & kind & -> & ->)].
+  - statics Hts. rewrite Sfin. apply (I k x Hx). congruence.
+  - cbn [k_kind k_final fresh_task] in *. now apply (submit_kind_inv _ _ _ _ _ _ _ _ _ H).
+Qed.
+
+Lemma iofinal_final_reachable a b c d e0 f0 g h s : reachable (init a b c d e0 f0 g h) s -> iofinal_final s.
+Proof.
+  apply invariant_reachable; [intros k x Hx; discriminate|].
+  intros s1 ev s2 I H. eapply iofinal_final_step; eauto.
+Qed.
+
+(** IO write tasks are created by a GetObject task inside its main *)
+Theorem iowrite_parent a b c d e0 f0 g h s k x :
+  reachable (init a b c d e0 f0 g h) s -> find_task k (tasks s) = Some x -> k_kind x = KIOWrite ->
+  exists p, find_task (k_parent x) (tasks s) = Some p /\ k_kind p = KGet /\ k_t p = k_t x.
+Proof.
+  intros R. revert k x. revert s R.
+  apply (invariant_reachable (fun s => forall k x, find_task k (tasks s) = Some x -> k_kind x = KIOWrite ->
+           exists p, find_task (k_parent x) (tasks s) = Some p /\ k_kind p = KGet /\ k_t p = k_t x)).
+  - intros k x Hx. discriminate.
+  - intros s e s' I H k x' Hx' Hk.
+    assert (Keep : forall a0 p, find_task a0 (tasks s) = Some p -> k_kind p = KGet ->
+              exists p', find_task a0 (tasks s') = Some p' /\ k_kind p' = KGet /\ k_t p' = k_t p).
+    { intros a0 p Hp Hpk. destruct (task_persists _ _ _ _ _ H Hp) as (p' & Hp' & Hts). statics Hts.
+      exists p'. repeat split; congruence. }
+    destruct (task_origin _ _ _ _ _ H Hx') as [(x & Hx & Hts)|(_ & t & g1 & a1 & fin & deps & kind & -> & ->)].
+    + statics Hts. rewrite Spar, St. destruct (I k x Hx) as (p & Hp & Hpk & Hpt); [congruence|].
+      destruct (Keep _ p Hp Hpk) as (p' & Hp' & Hpk' & Hpt'). exists p'. repeat split; congruence.
+    + cbn [k_kind k_parent k_t fresh_task] in *.
+      destruct (proj2 (submit_kind_inv _ _ _ _ _ _ _ _ _ H) Hk) as (p & Hp & _ & Hpk).
+      destruct (Keep _ p Hp Hpk) as (p' & Hp' & Hpk' & Hpt'). exists p'. repeat split; auto.
+      rewrite Hpt'. assert (Hns : KIOWrite <> KSubmission) by discriminate. rewrite <- Hk in Hns.
+      destruct (submit_inv _ _ _ _ _ _ _ _ _ H) as [_ _ Hnsub _ _ _ _ _ _ _ _].
+      destruct (Hnsub Hns) as (_ & p0 & Hp0 & Hp0t & _). congruence.
+Qed.
+
+(** ** after publication the write count is frozen and writes are rejected *)
+Lemma published_rejects_writes s t :
+  files_inv s -> published s t = true ->
+  (forall a, step s (EFs a t FWrite) = None) /\ (forall a, step s (EFs a t FOpen) = None).
+Proof.
+  unfold published. intros I Hp. destruct (find_file t (files s)) as [f|] eqn:Ef; [|discriminate].
+  destruct (I t f Ef) as [_ _ I3 _ _ _]. split; intros a.
+  - destruct (step s (EFs a t FWrite)) as [s'|] eqn:H; [exfalso|reflexivity].
+    destruct (efs_inv _ _ _ _ _ H) as (_ & _ & _ & Hm). rewrite Ef in Hm. destruct Hm as (_ & Ho & _).
+    rewrite (I3 Hp) in Ho. discriminate.
+  - destruct (step s (EFs a t FOpen)) as [s'|] eqn:H; [exfalso|reflexivity].
+    destruct (efs_inv _ _ _ _ _ H) as (_ & _ & _ & Hm). now rewrite Ef in Hm.
+Qed.
+
+Lemma published_writes_step s e s' t :
+  files_inv s -> published s t = true -> step s e = Some s' -> writes_of s' t = writes_of s t.
+Proof.
+  unfold published, writes_of. intros I Hp H. destruct (find_file t (files s)) as [f|] eqn:Ef; [|discriminate].
+  destruct (file_persists _ _ _ _ _ H Ef) as (f' & -> & Hfs).
+  destruct (I t f Ef) as [_ _ I3 _ _ _]. destruct Hfs; cbn; try reflexivity.
+  match goal with Ho : f_open f = true |- _ => rewrite (I3 Hp) in Ho; discriminate end.
+Qed.
+
+Lemma published_writes_run tr : forall s s2 t,
+  files_inv s -> published s t = true -> run s tr = Some s2 -> writes_of s2 t = writes_of s t.
+Proof.
+  induction tr as [|e tr IH]; intros s s2 t I Hp Hr; cbn [run] in Hr.
+  - now injection Hr as <-.
+  - destruct (step s e) as [s1|] eqn:Es; [|discriminate].
+    rewrite (IH s1 s2 t); [eapply published_writes_step; eauto|eapply files_inv_step; eauto
+                          |eapply published_step; eauto|exact Hr].
+Qed.
+
+(** ** when no task of [t] other than the submission task is in its main, only
+    the thread running the failure cleanups can touch the file of [t] *)
+Definition no_main (s : state) (t : Z) : Prop :=
+  forall k x, find_task k (tasks s) = Some x -> k_t x = t -> k_kind x <> KSubmission ->
+              k_st x <> TReady /\ k_st x <> TMain.
+
+Lemma no_main_no_writer s a t : no_main s t -> io_writer s a t -> False.
+Proof.
+  intros Q (x & Hx & Ht & Hst & Hk). destruct (Q a x Hx Ht) as [_ Hn]; [|contradiction].
+  rewrite Hk. discriminate.
+Qed.
+
+Lemma no_main_no_finalizer s a t : no_main s t -> io_finalizer s a t -> False.
+Proof.
+  intros Q (x & Hx & Ht & Hst & Hk). destruct (Q a x Hx Ht) as [_ Hn]; [|contradiction].
+  rewrite Hk. discriminate.
+Qed.
+
+Lemma quiet_file_step s e s' t :
+  no_main s t -> step s e = Some s' ->
+  match find_file t (files s), find_file t (files s') with
+  | Some f, Some f' => f' = f \/ exists a, cleaner s a t /\ (f' = f_close f \/ f' = f_remove f)
+  | None, None => True
+  | _, _ => False
+  end.
+Proof.
+  intros Q H. destruct (find_file t (files s)) as [f|] eqn:Ef.
+  - destruct (file_persists _ _ _ _ _ H Ef) as (f' & -> & Hfs).
+    destruct Hfs; auto.
+    + exfalso. eapply no_main_no_writer; eauto.
+    + match goal with Hor : _ \/ _ |- _ => destruct Hor as [Hfin|Hcl] end;
+        [exfalso; eapply no_main_no_finalizer; eauto|right; eauto].
+    + exfalso. eapply no_main_no_finalizer; eauto.
+    + right; eauto.
+  - destruct (find_file t (files s')) as [f'|] eqn:Ef'; [|exact I].
+    destruct (file_origin _ _ _ _ _ H Ef') as [(f & Hf & _)|(_ & a & _ & Hw & _)]; [congruence|].
+    eapply no_main_no_writer; eauto.
+Qed.
+
+(** what stays fixed once only cleaners can act *)
+Definition frozen (f f2 : filest) : Prop :=
+  f_renamed f2 = f_renamed f /\ f_writes f2 = f_writes f /\ f_renames f2 = f_renames f /\
+  (f_exists f = false -> f_exists f2 = false) /\ (f_removed f = true -> f_removed f2 = true).
+
+Definition file_frozen (s s2 : state) (t : Z) : Prop :=
+  match find_file t (files s), find_file t (files s2) with
+  | Some f, Some f2 => frozen f f2
+  | None, None => True
+  | _, _ => False
+  end.
+
+Lemma frozen_refl f : frozen f f.
+Proof. unfold frozen. auto. Qed.
+
+Lemma file_frozen_refl s t : file_frozen s s t.
+Proof. unfold file_frozen. destruct (find_file t (files s)); [apply frozen_refl|exact I]. Qed.
+
+Lemma file_frozen_step s s1 e s1' t :
+  file_frozen s s1 t -> no_main s1 t -> step s1 e = Some s1' -> file_frozen s s1' t.
+Proof.
+  unfold file_frozen. intros Fz Q H. pose proof (quiet_file_step _ _ _ _ Q H) as Hq.
+  destruct (find_file t (files s)) as [f|]; destruct (find_file t (files s1)) as [f1|]; try contradiction;
+    destruct (find_file t (files s1')) as [f1'|]; try contradiction; auto.
+  destruct Fz as (F1 & F2 & F3 & F4 & F5).
+  destruct Hq as [->|(a & _ & [-> | ->])]; unfold frozen; cbn; auto 10.
+  repeat split; auto. intros Hr. rewrite (F5 Hr). apply orb_true_r.
+Qed.
+
+Lemma quiet_temp_step s e s' t :
+  no_main s t -> step s e = Some s' -> temp_exists s t = false -> temp_exists s' t = false.
+Proof.
+  unfold temp_exists. intros Q H Hn. pose proof (quiet_file_step _ _ _ _ Q H) as Hq.
+  destruct (find_file t (files s)) as [f|]; destruct (find_file t (files s')) as [f'|]; try contradiction; auto.
+  destruct Hq as [->|(a & _ & [-> | ->])]; cbn; auto.
+Qed.
+
+(* ------------------------------------------------------------------ *)
+Section ReachF.
+Variables w_sub w_req q_sub q_req q_io up down : Z.
+(** single IO worker, as in SysQuiesce's Reach3 *)
+Let s0 := init w_sub w_req 1 q_sub q_req q_io up down.
+
+(** ** F2 / F5: a published file has received every write *)
+
+(** once a final task has reached its main, every other task of the transfer
+    (the submission task excepted) is neither in nor about to enter its main *)
+Lemma final_started_cold s t kf F :
+  reachable s0 s -> find_task kf (tasks s) = Some F -> k_t F = t -> k_final F = true ->
+  at_or_after_main (k_st F) = true ->
+  forall k x, find_task k (tasks s) = Some x -> k_t x = t -> k_kind x <> KSubmission -> k <> kf ->
+    hot (k_st x) = false.
+Proof.
+  intros R HF HFt HFfin HFs k x Hx Ht Hns Hne.
+  destruct (past_main (k_st F)) eqn:Epm.
+  - assert (Hc : ann_cause s t) by (left; exists kf, F; auto).
+    exact (calm_inv_reachable _ _ _ _ _ _ _ s R t Hc k x Hx Ht Hns).
+  - assert (Hst : k_st F = TDeps \/ k_st F = TMain \/ k_st F = TFailed).
+    { destruct (k_st F); cbn in HFs, Epm; auto; discriminate. }
+    apply (final_running_calm s kf F (base_inv_reachable _ _ _ _ _ _ _ s R) HF HFfin Hst k x Hx);
+      [congruence|exact Hns|exact Hne].
+Qed.
+
+(** at the rename, every other task of the transfer (but the submission task)
+    is either not yet picked by a worker or past its main *)
+Theorem settled_at_rename s a t s' :
+  reachable s0 s -> step s (EFs a t FRename) = Some s' ->
+  forall k x, find_task k (tasks s) = Some x -> k_t x = t -> k_kind x <> KSubmission -> k <> a ->
+    k_st x = TSubmitting \/ k_st x = TQueued \/ past_main (k_st x) = true.
+Proof.
+  intros R H k x Hx Ht Hk Hne.
+  destruct (efs_inv _ _ _ _ _ H) as (_ & _ & _ & Hm).
+  destruct (find_file t (files s)) as [f|]; [|contradiction].
+  destruct Hm as ((F & HF & HFt & HFst & HFk) & _).
+  pose proof (iofinal_final_reachable _ _ _ _ _ _ _ _ s R a F HF HFk) as HFfin.
+  destruct (base_inv_reachable _ _ _ _ _ _ _ s R) as [_ _ _ BF BD BIO BW _].
+  destruct (BF a F k x HF Hx HFfin) as [_ [Ho|[Ho|[Ho|[Ho1 Ho2]]]]]; [congruence|exact Hne|contradiction| | |].
+  - assert (Ha : after_deps (k_st F) = true) by (rewrite HFst; reflexivity).
+    destruct (BD a F k HF Ha Ho) as (y & Hy & Hye). rewrite Hx in Hy. injection Hy as <-.
+    right; right. now rewrite Hye.
+  - auto.
+  - assert (Haf : io_active F = true) by (unfold io_active; rewrite Ho2, HFst; reflexivity).
+    assert (Eax : io_active x = false).
+    { destruct (io_active x) eqn:Eax; [exfalso|reflexivity].
+      destruct (BIO BW) as [[_ Hno]|[_ (k0 & Hk0)]].
+      - rewrite (Hno a F HF) in Haf. discriminate.
+      - pose proof (Hk0 a F HF Haf). pose proof (Hk0 k x Hx Eax). congruence. }
+    unfold io_active in Eax. rewrite Ho1 in Eax. cbn in Eax.
+    destruct (k_st x); cbn in Eax; auto; discriminate.
+Qed.
+
+(** once published: no IO write task of the transfer is in (or about to enter) its main *)
+Theorem published_writers_cold s t :
+  reachable s0 s -> published s t = true ->
+  forall k x, find_task k (tasks s) = Some x -> k_t x = t -> k_kind x = KIOWrite ->
+    k_st x <> TReady /\ k_st x <> TMain.
+Proof.
+  intros R Hp k x Hx Ht Hk. unfold published in Hp.
+  destruct (find_file t (files s)) as [f|] eqn:Ef; [|discriminate].
+  destruct (renamer_inv_reachable _ _ _ _ _ _ _ _ s R t f Ef Hp) as (kf & F & HF & HFt & HFk & HFs & _).
+  pose proof (iofinal_final_reachable _ _ _ _ _ _ _ _ s R kf F HF HFk) as HFfin.
+  assert (Hns : k_kind x <> KSubmission) by (rewrite Hk; discriminate).
+  assert (Hhot : hot (k_st x) = false).
+  { apply (final_started_cold s t kf F R HF HFt HFfin HFs k x Hx Ht Hns).
+    intros ->. rewrite HF in Hx. injection Hx as <-. rewrite HFk in Hk. discriminate. }
+  split; intros E; rewrite E in Hhot; discriminate.
+Qed.
+
+Theorem rename_after_all_writes s t :
+  reachable s0 s -> published s t = true ->
+  (forall k x, find_task k (tasks s) = Some x -> k_t x = t -> k_kind x = KIOWrite ->
+     k_st x <> TReady /\ k_st x <> TMain) /\
+  (forall a, step s (EFs a t FWrite) = None) /\ (forall a, step s (EFs a t FOpen) = None) /\
+  forall tr s2, run s tr = Some s2 ->
+    published s2 t = true /\ writes_of s2 t = writes_of s t /\
+    (forall k x, find_task k (tasks s2) = Some x -> k_t x = t -> k_kind x = KIOWrite ->
+       k_st x <> TReady /\ k_st x <> TMain) /\
+    (forall a, step s2 (EFs a t FWrite) = None) /\ (forall a, step s2 (EFs a t FOpen) = None).
+Proof.
+  intros R Hp. pose proof (files_inv_reachable _ _ _ _ _ _ _ _ s R) as FI.
+  split; [now apply published_writers_cold|].
+  destruct (published_rejects_writes s t FI Hp) as [W1 W2]. split; [exact W1|]. split; [exact W2|].
+  intros tr s2 Hr.
+  assert (R2 : reachable s0 s2) by (eapply reachable_run; eauto).
+  assert (Hp2 : published s2 t = true) by (eapply published_run; eauto).
+  split; [exact Hp2|]. split; [eapply published_writes_run; eauto|].
+  split; [now apply published_writers_cold|].
+  apply published_rejects_writes; [|exact Hp2]. apply (files_inv_reachable _ _ _ _ _ _ _ _ s2 R2).
+Qed.
+
+(** ** F3, success: the final task renamed before it set the result *)
+
+(** a successful transfer has a final task that reached its main *)
+Definition success_final (s : state) : Prop :=
+  forall t c, find_coord t (coords s) = Some c -> c_status c = Success ->
+  exists kf F, find_task kf (tasks s) = Some F /\ k_t F = t /\ k_final F = true /\
+               at_or_after_main (k_st F) = true.
+
+Lemma success_final_step s e s' : success_final s -> step s e = Some s' -> success_final s'.
+Proof.
+  intros I H t c' Hc' Hs.
+  assert (Keep : forall kf F, find_task kf (tasks s) = Some F -> k_t F = t -> k_final F = true ->
+            at_or_after_main (k_st F) = true ->
+            exists kf' F', find_task kf' (tasks s') = Some F' /\ k_t F' = t /\ k_final F' = true /\
+                           at_or_after_main (k_st F') = true).
+  { intros kf F HF Ht Hfin Hst. destruct (task_persists _ _ _ _ _ H HF) as (F' & HF' & Hts). statics Hts.
+    exists kf, F'. repeat split; try congruence. eapply at_or_after_main_step; eauto. }
+  destruct (coord_origin _ _ _ _ _ H Hc') as [(c & Hc & Hcs)|(_ & ->)]; [|discriminate Hs].
+  destruct (status_eqb (c_status c) Success) eqn:Es.
+  - apply status_eqb_eq in Es. destruct (I t c Hc Es) as (kf & F & HF & Ht & Hfin & Hst). eapply Keep; eauto.
+  - destruct Hcs; cbn in Hs; try (rewrite Hs in Es; discriminate); try discriminate.
+    + eapply Keep; eauto. match goal with Hq : k_st _ = TMain |- _ => now rewrite Hq end.
+    + destruct tr; discriminate.
+Qed.
+
+Lemma success_final_reachable s : reachable s0 s -> success_final s.
+Proof.
+  apply invariant_reachable; [intros t c Hc; discriminate|].
+  intros s1 ev s2 I H. eapply success_final_step; eauto.
+Qed.
+
+(** the hypothesis of the success statement: the final task of the transfer is
+    the IO final task (for a download: IORenameFileTask, submitted by the
+    count-down callback, download.py:531-536).  No guard of [ESubmit] ties the
+    kind of the final task to the kinds of the other tasks of the transfer. *)
+Definition final_is_iofinal (s : state) (t : Z) : Prop :=
+  forall k x, find_task k (tasks s) = Some x -> k_t x = t -> k_final x = true -> k_kind x = KIOFinal.
+
+Lemma final_is_iofinal_back s e s' t : step s e = Some s' -> final_is_iofinal s' t -> final_is_iofinal s t.
+Proof.
+  intros H K k x Hx Ht Hfin. destruct (task_persists _ _ _ _ _ H Hx) as (x' & Hx' & Hts). statics Hts.
+  rewrite <- Skind. apply (K k x' Hx'); congruence.
+Qed.
+
+Definition success_renamed (s : state) (t : Z) : Prop :=
+  forall c f, find_coord t (coords s) = Some c -> c_status c = Success ->
+              find_file t (files s) = Some f -> f_renamed f = true.
+
+Lemma success_renamed_step s e s' t :
+  reachable s0 s -> final_is_iofinal s t -> success_renamed s t -> step s e = Some s' -> success_renamed s' t.
+Proof.
+  intros R K P H c' f' Hc' Hs Hf'.
+  destruct (file_origin _ _ _ _ _ H Hf') as [(f & Hf & Hfs)|(Hnone & a & -> & Hw & Hb & ->)].
+  - destruct (coord_origin _ _ _ _ _ H Hc') as [(c & Hc & Hcs)|(_ & ->)]; [|discriminate Hs].
+    destruct (status_eqb (c_status c) Success) eqn:Es.
+    + apply status_eqb_eq in Es. eapply renamed_mono; [exact Hfs|]. eapply P; eauto.
+    + destruct Hcs; cbn in Hs; try (rewrite Hs in Es; discriminate); try discriminate.
+      * (* set_result *)
+        destruct (setresult_inv _ _ _ H) as (x0 & Hx0 & _ & _ & Hfiles & _ & Hren).
+        match goal with Hx : find_task k (tasks s) = Some ?y |- _ =>
+          rewrite Hx in Hx0; injection Hx0 as <-;
+          assert (Hk : k_kind y = KIOFinal) by (eapply K; eauto) end.
+        rewrite Hfiles, Hf in Hf'. injection Hf' as <-.
+        match goal with Hkt : k_t _ = t |- _ => rewrite <- Hkt in Hf end. eapply Hren; eauto.
+      * destruct tr; discriminate.
+  - (* the temp file is created although the transfer is successful: impossible *)
+    exfalso. destruct (efs_inv _ _ _ _ _ H) as (_ & _ & Hco & _). rewrite Hco in Hc'.
+    destruct (success_final_reachable s R t c' Hc' Hs) as (kf & F & HF & HFt & HFfin & HFs).
+    destruct Hw as (w & Hwx & Hwt & Hwst & Hwk).
+    assert (Hhot : hot (k_st w) = false).
+    { apply (final_started_cold s t kf F R HF HFt HFfin HFs a w Hwx Hwt); [rewrite Hwk; discriminate|].
+      intros ->. rewrite HF in Hwx. injection Hwx as <-. rewrite (K kf F HF HFt HFfin) in Hwk. discriminate. }
+    rewrite Hwst in Hhot. discriminate.
+Qed.
+
+Theorem success_renamed_run tr : forall s t, run s0 tr = Some s -> final_is_iofinal s t -> success_renamed s t.
+Proof.
+  induction tr as [|e tr IH] using rev_ind; intros s t Hrun K.
+  - injection Hrun as <-. intros c f Hc. discriminate.
+  - rewrite run_app in Hrun. destruct (run s0 tr) as [s1|] eqn:E1; [|discriminate].
+    cbn [run] in Hrun. destruct (step s1 e) as [s2|] eqn:Es; [|discriminate]. injection Hrun as ->.
+    pose proof (final_is_iofinal_back _ _ _ _ Es K) as K1.
+    eapply success_renamed_step; [exists tr; exact E1|exact K1|apply IH; auto|exact Es].
+Qed.
+
+(** a successful path download whose final task is the IO final task has
+    published its file and left no temp file *)
+Theorem no_temp_on_success s t c :
+  reachable s0 s -> find_coord t (coords s) = Some c -> c_status c = Success -> final_is_iofinal s t ->
+  temp_exists s t = false /\
+  (forall f, find_file t (files s) = Some f -> f_renamed f = true /\ f_exists f = false /\ f_open f = false).
+Proof.
+  intros R Hc Hs K. destruct R as [tr Hrun].
+  pose proof (success_renamed_run tr s t Hrun K c) as P.
+  assert (R : reachable s0 s) by (exists tr; exact Hrun).
+  assert (G : forall f, find_file t (files s) = Some f -> f_renamed f = true /\ f_exists f = false /\ f_open f = false).
+  { intros f Hf. pose proof (P f Hc Hs Hf) as Hr. split; [exact Hr|].
+    destruct (renames_at_most_one _ _ _ _ _ _ _ _ s t f R Hf) as (_ & _ & G). now apply G. }
+  split; [|exact G]. unfold temp_exists. destruct (find_file t (files s)) as [f|] eqn:Ef; [|reflexivity].
+  now destruct (G f eq_refl) as (_ & He & _).
+Qed.
+
+(** ** F4 and F3: after an announce has begun *)
+Lemma ann_trigger s t c :
+  reachable s0 s -> find_coord t (coords s) = Some c ->
+  c_ann_started c = true \/ c_owing c <> [] \/ c_event c = true \/ c_cl_runner c <> None ->
+  c_ann_started c = true \/ c_owing c <> [].
+Proof.
+  intros R Hc [Ht|[Ht|[Ht|Ht]]]; auto; left;
+    destruct (T1_inv_reachable _ _ _ _ _ _ _ _ s R) as (_ & _ & IL & _);
+    destruct (IL t c Hc) as [_ L2 _ _ L5 _]; auto.
+Qed.
+
+(** once an announce has begun, the file of the transfer is frozen: no write,
+    no rename, no re-creation; only the cleanup thread's close/remove *)
+Theorem done_file_frozen s t c :
+  reachable s0 s -> find_coord t (coords s) = Some c ->
+  c_ann_started c = true \/ c_owing c <> [] \/ c_event c = true \/ c_cl_runner c <> None ->
+  forall tr s2, run s tr = Some s2 -> file_frozen s s2 t.
+Proof.
+  intros R Hc Htr. pose proof (ann_trigger s t c R Hc Htr) as Htr2.
+  destruct (announce_quiescent _ _ _ _ _ _ _ s t c R Hc Htr2) as (_ & _ & Q).
+  apply (run_invariant_under (fun s1 => no_main s1 t) (fun s1 => file_frozen s s1 t)).
+  - intros tr1 s1 Hr1. exact (proj2 (Q tr1 s1 Hr1)).
+  - apply file_frozen_refl.
+  - intros s1 e s1' Q1 P1 Hs. eapply file_frozen_step; eauto.
+Qed.
+
+(** F4: a transfer whose announce began unpublished is never published *)
+Theorem failure_keeps_dest s t c :
+  reachable s0 s -> find_coord t (coords s) = Some c ->
+  c_ann_started c = true \/ c_owing c <> [] \/ c_event c = true \/ c_cl_runner c <> None ->
+  published s t = false ->
+  forall tr s2, run s tr = Some s2 -> published s2 t = false.
+Proof.
+  intros R Hc Htr Hp tr s2 Hr. pose proof (done_file_frozen s t c R Hc Htr tr s2 Hr) as Fz.
+  unfold file_frozen, published in *.
+  destruct (find_file t (files s)) as [f|]; destruct (find_file t (files s2)) as [f2|]; try contradiction; auto.
+  destruct Fz as (F1 & _). congruence.
+Qed.
+
+(** F3, the part the model supports: at done (event set) a leftover temp file
+    was never renamed nor removed; a renamed or removed temp does not exist;
+    from then on the file is frozen, in particular an absent temp stays absent *)
+Theorem no_temp_when_done_partial s t c :
+  reachable s0 s -> find_coord t (coords s) = Some c -> c_event c = true ->
+  (forall f, find_file t (files s) = Some f -> f_exists f = true ->
+     f_renamed f = false /\ f_removed f = false /\ f_renames f = 0) /\
+  (forall f, find_file t (files s) = Some f -> f_renamed f = true \/ f_removed f = true ->
+     f_exists f = false) /\
+  (forall tr s2, run s tr = Some s2 ->
+     file_frozen s s2 t /\ (temp_exists s t = false -> temp_exists s2 t = false)).
+Proof.
+  intros R Hc Hev. pose proof (files_inv_reachable _ _ _ _ _ _ _ _ s R) as FI.
+  split; [|split].
+  - intros f Hf He. destruct (FI t f Hf) as [_ I2 _ I4 _ _]. destruct (I2 He) as [Hr Hm].
+    rewrite Hr in I4. auto.
+  - intros f Hf Hor. destruct (FI t f Hf) as [_ I2 _ _ I6 _].
+    destruct Hor as [Hr|Hm]; [|auto]. destruct (f_exists f) eqn:Ee; [|reflexivity].
+    destruct (I2 eq_refl). congruence.
+  - intros tr s2 Hr.
+    assert (Fz : file_frozen s s2 t) by (eapply done_file_frozen; eauto).
+    split; [exact Fz|]. unfold file_frozen, temp_exists in *.
+    destruct (find_file t (files s)) as [f|]; destruct (find_file t (files s2)) as [f2|]; try contradiction; auto.
+    destruct Fz as (_ & _ & _ & F4 & _). exact F4.
+Qed.
+
+(** if the cleanup thread performed the remove, no temp file exists from then on *)
+Theorem remove_cleanup_no_temp tr : forall s, run s0 tr = Some s ->
+  forall a t, In (EFs a t FRemove) tr ->
+  temp_exists s t = false /\ exists c, find_coord t (coords s) = Some c /\ c_ann_started c = true.
+Proof.
+  induction tr as [|e tr IH] using rev_ind; intros s Hrun a t Hin; [contradiction|].
+  rewrite run_app in Hrun. destruct (run s0 tr) as [s1|] eqn:E1; [|discriminate].
+  cbn [run] in Hrun. destruct (step s1 e) as [s2|] eqn:Es; [|discriminate]. injection Hrun as ->.
+  assert (R1 : reachable s0 s1) by (exists tr; exact E1).
+  apply in_app_or in Hin as [Hin|[->|[]]].
+  - destruct (IH s1 eq_refl a t Hin) as (Hte & c & Hc & Hst).
+    destruct (announce_quiescent _ _ _ _ _ _ _ s1 t c R1 Hc (or_introl Hst)) as (_ & Q1 & _).
+    split; [eapply quiet_temp_step; eauto|].
+    destruct (coord_persistsE _ _ _ _ _ Es Hc) as (c' & Hc' & Hcs).
+    exists c'. split; [exact Hc'|]. eapply started_mono; [eapply cstepE_cstep; exact Hcs|exact Hst].
+  - destruct (efs_inv _ _ _ _ _ Es) as (_ & _ & Hco & Hm).
+    assert (Hcl : cleaner s1 a t /\ temp_exists s t = false).
+    { unfold temp_exists. destruct (find_file t (files s1)) as [f|] eqn:Ef; destruct Hm as (Hcl & Hfs).
+      - split; [exact Hcl|]. rewrite Hfs, find_file_upd, Z.eqb_refl, Ef by reflexivity. reflexivity.
+      - split; [exact Hcl|]. now rewrite Hfs, Ef. }
+    destruct Hcl as ((c & Hc & Hrun) & Hte). split; [exact Hte|].
+    exists c. rewrite Hco. split; [exact Hc|].
+    destruct (T1_inv_reachable _ _ _ _ _ _ _ _ s1 R1) as (_ & _ & IL & _).
+    destruct (IL t c Hc) as [_ _ _ _ L5 _]. apply L5. congruence.
+Qed.
+
+(** F3 on failure: the cleanup phase ended before the event was set; if it
+    contained the remove, no temp file exists at the event and ever after *)
+Theorem no_temp_on_failure_partial tr s a t s' c :
+  run s0 tr = Some s -> step s (EEventSet a t) = Some s' ->
+  find_coord t (coords s) = Some c -> c_status c <> Success ->
+  In (ECleanupsEnd a t) tr /\
+  ((exists b, In (EFs b t FRemove) tr) ->
+   forall tr2 s2, run s' tr2 = Some s2 -> temp_exists s2 t = false).
+Proof.
+  intros Hrun H Hc Hns.
+  split; [eapply (cleanups_before_event_on_failure w_sub w_req 1 q_sub q_req q_io up down); eauto|].
+  intros (b & Hin) tr2 s2 Hr2.
+  assert (Hall : run s0 (tr ++ EEventSet a t :: tr2) = Some s2).
+  { rewrite run_app. fold s0. rewrite Hrun. cbn [run]. now rewrite H. }
+  apply (proj1 (remove_cleanup_no_temp _ s2 Hall b t (in_or_app _ _ _ (or_introl Hin)))).
+Qed.
+End ReachF.
+
+(* ================================================================== *)
+(** * Part C.  C11: the counting view of the in-memory bounds *)
+
+(** ** which semaphore a task may hold: its executor's own, or -- request
+    executor only -- a tag semaphore *)
+Lemma acquire_inv s a k sem s' :
+  step s (EAcquire a k sem) = Some s' ->
+  exists x, find_task k (tasks s) = Some x /\
+    (sem = sem_of_stage (k_stage x) \/ ((sem = SEM_UP \/ sem = SEM_DOWN) /\ k_stage x = SReq)).
+Proof.
+  cbn [step]. intros H. destruct (find_task k (tasks s)) as [x|]; [|discriminate].
+  destruct (find_sem sem (sems s)); [|discriminate]. inv H. split_ands. exists x. split; [reflexivity|].
+  match goal with Ho : (sem =? sem_of_stage _) || _ = true |- _ => rename Ho into HO end.
+  apply orb_prop in HO as [HO|HO].
+  - left. lia.
+  - right. apply andb_prop in HO as [HO Hs]. apply stage_eqb_eq in Hs. split; [|exact Hs].
+    apply orb_prop in HO as [HO|HO]; [left|right]; lia.
+Qed.
+
+Definition permit_ok (x : task) : Prop :=
+  k_permit x = -1 \/ k_permit x = sem_of_stage (k_stage x) \/
+  ((k_permit x = SEM_UP \/ k_permit x = SEM_DOWN) /\ k_stage x = SReq).
+
+Definition permits_inv (s : state) : Prop := forall k x, find_task k (tasks s) = Some x -> permit_ok x.
+
+Lemma permits_inv_step s e s' : permits_inv s -> step s e = Some s' -> permits_inv s'.
+Proof.
+  intros I H k x' Hx'.
+  destruct (task_origin _ _ _ _ _ H Hx') as [(x & Hx & Hts)|(_ & t & g & a & fin & deps & kind & _ & ->)].
+  2:{ left. reflexivity. }
+  pose proof (I k x Hx) as Hok. unfold permit_ok in *.
+  destruct Hts; cbn [k_permit k_stage with_st with_flags with_phase with_permit with_assoc with_released]; auto.
+  (* acquire *)
+  destruct (acquire_inv _ _ _ _ _ H) as (x0 & Hx0 & Hor).
+  assert (E : k0 = k) by (pose proof (find_task_some_id _ _ _ Hx); congruence).
+  rewrite E, Hx in Hx0. injection Hx0 as <-. tauto.
+Qed.
+
+Lemma permits_inv_reachable a b c d e f g h s : reachable (init a b c d e f g h) s -> permits_inv s.
+Proof.
+  apply invariant_reachable; [intros k x Hx; discriminate|].
+  intros s1 ev s2 I H. eapply permits_inv_step; eauto.
+Qed.
+
+(** ** counting *)
+Lemma NoDup_map_inj {A B} (g : A -> B) (L : list A) :
+  NoDup L -> (forall x y, In x L -> In y L -> g x = g y -> x = y) -> NoDup (map g L).
+Proof.
+  induction L as [|x r IH]; intros Hnd Hinj; cbn [map]; [constructor|].
+  inversion Hnd as [|? ? Hx Hr]; subst. constructor.
+  - intros Hin. apply in_map_iff in Hin as (y & Hy & Hyr).
+    assert (y = x) by (apply Hinj; [now right|now left|exact Hy]). subst y. contradiction.
+  - apply IH; [exact Hr|]. intros y z Hy Hz. apply Hinj; now right.
+Qed.
+
+Lemma NoDup_of_map {A B} (g : A -> B) (L : list A) : NoDup (map g L) -> NoDup L.
+Proof.
+  induction L as [|x r IH]; cbn [map]; intros H; [constructor|].
+  inversion H as [|? ? Hx Hr]; subst. constructor; [|auto].
+  intros Hin. apply Hx. now apply in_map.
+Qed.
+
+(** an injection from the [p]-tasks into the ids of the [q]-tasks *)
+Lemma count_inj_le (p q : task -> bool) (g : task -> Z) l :
+  NoDup (map k_id l) ->
+  (forall x, In x l -> p x = true -> exists y, In y l /\ q y = true /\ k_id y = g x) ->
+  (forall x1 x2, In x1 l -> In x2 l -> p x1 = true -> p x2 = true -> g x1 = g x2 -> x1 = x2) ->
+  SysStage.count p l <= SysStage.count q l.
+Proof.
+  intros Hnd Hex Hinj. rewrite !SysStage.count_length. apply Nat2Z.inj_le.
+  rewrite <- (map_length g (filter p l)), <- (map_length k_id (filter q l)).
+  apply NoDup_incl_length.
+  - apply NoDup_map_inj; [apply NoDup_filter; eapply NoDup_of_map; exact Hnd|].
+    intros x y Hx Hy. apply filter_In in Hx as [Hx Hpx]. apply filter_In in Hy as [Hy Hpy]. now apply Hinj.
+  - intros z Hz. apply in_map_iff in Hz as (x & <- & Hx). apply filter_In in Hx as [Hx Hpx].
+    destruct (Hex x Hx Hpx) as (y & Hy & Hqy & Hid). apply in_map_iff. exists y. split; [exact Hid|].
+    apply filter_In. auto.
+Qed.
+
+(** ** B2: pending IO *)
+Definition io_pending (x : task) : bool := stage_eqb (k_stage x) SIO && SysStage.occupying (k_st x).
+
+Lemma caps_le a b c d e f g h s i cap :
+  1 <= d -> 1 <= e -> 1 <= f -> 1 <= g -> 1 <= h ->
+  reachable (init a b c d e f g h) s -> 0 <= i -> SysStage.caps d e f g h i = Some cap ->
+  SysStage.count (SysStage.holds i) (tasks s) <= cap.
+Proof.
+  intros Hd He Hf Hg Hh R Hi Hc.
+  destruct (SysStage.permit_conservation a b c d e f g h s i cap Hd He Hf Hg Hh R Hi Hc) as (v & _ & Hv & Hs). lia.
+Qed.
+
+Theorem io_pending_bounded a b c d e f g h s :
+  1 <= d -> 1 <= e -> 1 <= f -> 1 <= g -> 1 <= h ->
+  reachable (init a b c d e f g h) s ->
+  (* every queued or running IO task holds an unreleased permit of the IO executor's semaphore *)
+  (forall k x, find_task k (tasks s) = Some x -> io_pending x = true -> SysStage.holds SEM_IO x = true) /\
+  (* hence they are within max_io_queue_size *)
+  SysStage.count io_pending (tasks s) <= f.
+Proof.
+  intros Hd He Hf Hg Hh R.
+  assert (A : forall k x, find_task k (tasks s) = Some x -> io_pending x = true -> SysStage.holds SEM_IO x = true).
+  { intros k x Hx Hp. unfold io_pending in Hp. apply andb_prop in Hp as [Hs Ho]. apply stage_eqb_eq in Hs.
+    destruct (SysStage.occupying_holds_permit _ _ _ _ _ _ _ _ s k x R Hx) as [Hp0 Hrel];
+      [rewrite Hs; discriminate|exact Ho|].
+    pose proof (permits_inv_reachable _ _ _ _ _ _ _ _ s R k x Hx) as Hok. unfold permit_ok in Hok.
+    rewrite Hs in Hok. cbn [sem_of_stage] in Hok. unfold SysStage.holds. rewrite Hrel. cbn [negb].
+    destruct Hok as [E|[E|[_ E]]]; [lia| |discriminate]. rewrite E. reflexivity. }
+  split; [exact A|].
+  etransitivity; [|apply (caps_le a b c d e f g h s SEM_IO f Hd He Hf Hg Hh R); [unfold SEM_IO; lia|reflexivity]].
+  apply SysStage.count_le. intros x Hin Hp. apply (A (k_id x) x); [|exact Hp].
+  apply SysStage.in_find_task; [apply (SysStage.ids_inv_reachable _ _ _ _ _ _ _ _ s R)|exact Hin].
+Qed.
+
+(** ** B1 / B3: the tag semaphores (counting view) *)
+Theorem download_window_permits a b c d e f g h s :
+  1 <= d -> 1 <= e -> 1 <= f -> 1 <= g -> 1 <= h ->
+  reachable (init a b c d e f g h) s ->
+  exists free, find_sem SEM_DOWN (sems s) = Some free /\ 0 <= free /\
+    free + SysStage.count (SysStage.holds SEM_DOWN) (tasks s) = h.
+Proof.
+  intros Hd He Hf Hg Hh R.
+  apply (SysStage.permit_conservation a b c d e f g h s SEM_DOWN h Hd He Hf Hg Hh R); [unfold SEM_DOWN; lia|reflexivity].
+Qed.
+
+Theorem upload_permits a b c d e f g h s :
+  1 <= d -> 1 <= e -> 1 <= f -> 1 <= g -> 1 <= h ->
+  reachable (init a b c d e f g h) s ->
+  (exists free, find_sem SEM_UP (sems s) = Some free /\ 0 <= free /\
+     free + SysStage.count (SysStage.holds SEM_UP) (tasks s) = g) /\
+  SysStage.count (SysStage.holds SEM_UP) (tasks s) <= g.
+Proof.
+  intros Hd He Hf Hg Hh R.
+  destruct (SysStage.permit_conservation a b c d e f g h s SEM_UP g Hd He Hf Hg Hh R) as (v & Hv & Hv0 & Hs);
+    [unfold SEM_UP; lia|reflexivity|].
+  split; [exists v; auto|lia].
+Qed.
+
+(** ** B3: one pending child per submitter *)
+Definition one_child_inv (s : state) : Prop :=
+  forall k1 x1 k2 x2, find_task k1 (tasks s) = Some x1 -> find_task k2 (tasks s) = Some x2 ->
+    k_parent x1 = k_parent x2 -> k_stage x1 <> SInline -> k_stage x2 <> SInline ->
+    holds_parent x1 = true -> holds_parent x2 = true -> k1 = k2.
+
+Lemma holds_parent_fresh k t g a fin deps kind :
+  g <> SInline -> holds_parent (fresh_task k t g a fin deps kind) = true -> kind <> KSubmission.
+Proof.
+  unfold holds_parent, fresh_task, KSubmission. cbn. intros Hg.
+  destruct g; try contradiction; cbn; intros H; apply andb_prop in H as [H _]; apply negb_true_iff in H; lia.
+Qed.
+
+Lemma one_child_inv_step s e s' : one_child_inv s -> step s e = Some s' -> one_child_inv s'.
+Proof.
+  intros I H k1 x1' k2 x2' H1 H2 Hp N1 N2 A1 A2.
+  assert (Old : forall x x', tstepE s e x x' -> k_stage x' <> SInline -> holds_parent x' = true ->
+            holds_parent x = true /\ k_stage x <> SInline /\ k_parent x = k_parent x').
+  { intros x x' Hts N A. statics Hts.
+    destruct (holds_parent_begins _ _ _ _ Hts A) as [Hh|(Hs & _)]; [|congruence]. repeat split; congruence. }
+  assert (New : forall ko xo xo' kn t g a fin deps kind,
+            find_task ko (tasks s) = Some xo -> tstepE s e xo xo' ->
+            k_stage xo' <> SInline -> holds_parent xo' = true ->
+            e = ESubmit a kn t g fin deps kind -> g <> SInline ->
+            holds_parent (fresh_task kn t g a fin deps kind) = true -> k_parent xo' = a -> False).
+  { intros ko xo xo' kn t g a fin deps kind Hxo Hts N A -> Hg Hh Hpa.
+    destruct (Old _ _ Hts N A) as (Ho & _ & Hpo).
+    pose proof (holds_parent_fresh _ _ _ _ _ _ _ Hg Hh) as Hk.
+    destruct (submit_inv _ _ _ _ _ _ _ _ _ H) as [_ _ Hns _ _ _ _ _ _ _ _]. destruct (Hns Hk) as (Hnb & _).
+    pose proof (holds_parent_busy _ _ _ Hxo Ho) as Hb. rewrite Hpo, Hpa in Hb. congruence. }
+  destruct (task_origin _ _ _ _ _ H H1) as [(x1 & Hx1 & Hts1)|(Hn1 & t1 & g1 & a1 & f1 & d1 & kd1 & E1 & ->)];
+  destruct (task_origin _ _ _ _ _ H H2) as [(x2 & Hx2 & Hts2)|(Hn2 & t2 & g2 & a2 & f2 & d2 & kd2 & E2 & ->)].
+  - destruct (Old _ _ Hts1 N1 A1) as (O1 & S1 & P1). destruct (Old _ _ Hts2 N2 A2) as (O2 & S2 & P2).
+    apply (I k1 x1 k2 x2); auto. congruence.
+  - exfalso. cbn [k_parent k_stage fresh_task] in *. eapply (New k1 x1 x1'); eauto.
+  - exfalso. cbn [k_parent k_stage fresh_task] in *. eapply (New k2 x2 x2'); eauto.
+  - rewrite E1 in E2. now injection E2.
+Qed.
+
+Lemma one_child_inv_reachable a b c d e f g h s : reachable (init a b c d e f g h) s -> one_child_inv s.
+Proof.
+  apply invariant_reachable; [intros k1 x1 k2 x2 Hx; discriminate|].
+  intros s1 ev s2 I H. eapply one_child_inv_step; eauto.
+Qed.
+
+Lemma window_inv_reachable a b c d e f g h s : reachable (init a b c d e f g h) s -> window_inv s.
+Proof.
+  apply invariant_reachable; [intros k x Hx; discriminate|].
+  intros s1 ev s2 I H. eapply window_inv_step; eauto.
+Qed.
+
+(** a task inside coordinator.submit() (permit not yet taken or not yet
+    queued) whose submitter is a submission task *)
+Definition sub_child (s : state) (x : task) : bool :=
+  tst_eqb (k_st x) TSubmitting &&
+  match find_task (k_parent x) (tasks s) with Some p => k_kind p =? KSubmission | None => false end.
+
+(** at most one such task per submitter *)
+Theorem one_submitting_child a b c d e f g h s k1 x1 k2 x2 :
+  reachable (init a b c d e f g h) s ->
+  find_task k1 (tasks s) = Some x1 -> find_task k2 (tasks s) = Some x2 ->
+  k_parent x1 = k_parent x2 -> k_kind x1 <> KSubmission -> k_kind x2 <> KSubmission ->
+  k_st x1 = TSubmitting -> k_st x2 = TSubmitting -> k1 = k2.
+Proof.
+  intros R H1 H2 Hp K1 K2 S1 S2.
+  destruct (tb_inv_reachable _ _ _ _ _ _ _ _ s R) as [TB _].
+  assert (N : forall k x, find_task k (tasks s) = Some x -> k_st x = TSubmitting -> k_stage x <> SInline).
+  { intros k x Hx Hs Hi. destruct (TB k x Hx) as [_ _ _ _ _ _ B7 _]. destruct (B7 Hi). contradiction. }
+  apply (one_child_inv_reachable _ _ _ _ _ _ _ _ s R k1 x1 k2 x2 H1 H2 Hp); eauto;
+    apply holds_parent_spec; right; eauto.
+Qed.
+
+(** hence: tasks being submitted by submission tasks <= running submission workers *)
+Theorem submitting_children_le_workers a b c d e f g h s :
+  1 <= a -> 1 <= b -> 1 <= c -> reachable (init a b c d e f g h) s ->
+  SysStage.count (sub_child s) (tasks s) <= g_running (st_sub s) /\ g_running (st_sub s) <= a.
+Proof.
+  intros Ha Hb Hc R.
+  destruct (SysStage.running_le_workers a b c d e f g h s SSub Ha Hb Hc R ltac:(discriminate)) as (Hrun & [_ Hle] & Hw).
+  cbn [get_stage SysStage.wk] in *. split; [|lia]. rewrite Hrun.
+  pose proof (SysStage.ids_inv_reachable _ _ _ _ _ _ _ _ s R) as Ids.
+  destruct (tb_inv_reachable _ _ _ _ _ _ _ _ s R) as [TB _].
+  pose proof (window_inv_reachable _ _ _ _ _ _ _ _ s R) as W.
+  assert (Facts : forall x, In x (tasks s) -> sub_child s x = true ->
+            find_task (k_id x) (tasks s) = Some x /\ k_st x = TSubmitting /\ k_kind x <> KSubmission /\
+            exists p, find_task (k_parent x) (tasks s) = Some p /\ k_kind p = KSubmission).
+  { intros x Hin Hsc. unfold sub_child in Hsc. apply andb_prop in Hsc as [Hst Hpk]. apply tst_eqb_true in Hst.
+    pose proof (SysStage.in_find_task _ _ Ids Hin) as Hx. split; [exact Hx|]. split; [exact Hst|].
+    destruct (find_task (k_parent x) (tasks s)) as [p|] eqn:Ep; [|discriminate].
+    split; [|exists p; split; [reflexivity|unfold KSubmission in *; lia]].
+    intros Hk. destruct (TB _ x Hx) as [B1 _ _ _ _ _ _ _]. destruct (B1 Hk) as (_ & _ & Hu).
+    destruct (TB _ p Ep) as [_ _ _ P4 _ _ _ _]. rewrite (find_task_some_id _ _ _ Ep) in P4.
+    unfold is_user in Hu. lia. }
+  apply (count_inj_le (sub_child s) (SysStage.runs_in SSub) k_parent); [exact Ids| |].
+  - intros x Hin Hsc. destruct (Facts x Hin Hsc) as (Hx & Hst & Hk & p & Hp & Hpk).
+    assert (Hns : k_stage x <> SInline).
+    { intros Hi. destruct (TB _ x Hx) as [_ _ _ _ _ _ B7 _]. destruct (B7 Hi). contradiction. }
+    assert (Hh : holds_parent x = true) by (apply holds_parent_spec; right; auto).
+    destruct (W _ x Hx Hh) as (p' & Hp' & _ & Hact). rewrite Hp in Hp'. injection Hp' as <-.
+    exists p. split; [eapply SysQuiesce.find_task_in; eauto|]. split; [|eapply find_task_some_id; eauto].
+    destruct (TB _ p Hp) as [P1 _ _ _ _ _ _ _]. destruct (P1 Hpk) as (_ & Hs & _).
+    unfold SysStage.runs_in. rewrite Hs. cbn. destruct Hact as [-> | ->]; reflexivity.
+  - intros x1 x2 In1 In2 S1 S2 Hpar.
+    destruct (Facts x1 In1 S1) as (Hx1 & Hst1 & Hk1 & _). destruct (Facts x2 In2 S2) as (Hx2 & Hst2 & Hk2 & _).
+    assert (E : k_id x1 = k_id x2) by (eapply (one_submitting_child a b c d e f g h s); eauto).
+    rewrite E in Hx1. congruence.
+Qed.
+
+Lemma count_or_le (p q : task -> bool) l :
+  SysStage.count (fun x => p x || q x) l <= SysStage.count p l + SysStage.count q l.
+Proof.
+  induction l as [|x r IH]; cbn [SysStage.count]; [lia|].
+  unfold SysStage.b2z. destruct (p x); destruct (q x); cbn [orb]; lia.
+Qed.
+
+(** stream uploads, counting view: tasks that hold an in-memory-upload-chunk
+    permit, or are still inside submit() called by a submission task (their
+    chunk has been read, the permit not yet taken), are at most
+    max_in_memory_upload_chunks + max_submission_concurrency *)
+Theorem upload_buffers_bounded a b c d e f g h s :
+  1 <= a -> 1 <= b -> 1 <= c -> 1 <= d -> 1 <= e -> 1 <= f -> 1 <= g -> 1 <= h ->
+  reachable (init a b c d e f g h) s ->
+  SysStage.count (fun x => SysStage.holds SEM_UP x || sub_child s x) (tasks s) <= g + a.
+Proof.
+  intros Ha Hb Hc Hd He Hf Hg Hh R.
+  pose proof (count_or_le (SysStage.holds SEM_UP) (sub_child s) (tasks s)) as H1.
+  destruct (upload_permits a b c d e f g h s Hd He Hf Hg Hh R) as [_ H2].
+  destruct (submitting_children_le_workers a b c d e f g h s Ha Hb Hc R) as [H3 H4]. lia.
+Qed.
+
+(* ================================================================== *)
+(** * Part D.  F2 / F5, strong form (with the single-IO-worker FIFO lemma of
+    SysStage): every IO write task of a published download ran its main to
+    normal completion *)
+Section ReachD.
+Variables w_sub w_req q_sub q_req q_io up down : Z.
+Hypothesis Hsub : 0 <= w_sub.
+Hypothesis Hreq : 0 <= w_req.
+Let s0 := init w_sub w_req 1 q_sub q_req q_io up down.
+
+Lemma writes_done_of_final s t kf F :
+  reachable s0 s -> find_task kf (tasks s) = Some F -> k_t F = t -> k_kind F = KIOFinal ->
+  k_ran_main F = true ->
+  forall k x, find_task k (tasks s) = Some x -> k_t x = t -> k_kind x = KIOWrite ->
+    past_main (k_st x) = true /\ k_main_ok x = true /\ k_skipped x = false /\ k_ran_main x = true.
+Proof.
+  intros R HF HFt HFk Hran k x Hx Ht Hk.
+  pose proof (iofinal_final_reachable _ _ _ _ _ _ _ _ s R kf F HF HFk) as HFfin.
+  assert (Hne : k <> kf).
+  { intros ->. rewrite HF in Hx. injection Hx as <-. rewrite HFk in Hk. discriminate. }
+  assert (Hns : k_kind x <> KSubmission) by (rewrite Hk; discriminate).
+  apply (SysStage.good_inv_reachable w_sub w_req 1 q_sub q_req q_io up down s Hsub Hreq ltac:(lia) R
+           kf F k x HF Hx HFfin); [congruence|exact Hne|right; exact Hran|].
+  split; [exact Hns|]. right; right. reflexivity.
+Qed.
+
+(** at the rename *)
+Theorem all_writes_done_at_rename s a t s' :
+  reachable s0 s -> step s (EFs a t FRename) = Some s' ->
+  forall k x, find_task k (tasks s) = Some x -> k_t x = t -> k_kind x = KIOWrite ->
+    past_main (k_st x) = true /\ k_main_ok x = true /\ k_skipped x = false /\ k_ran_main x = true.
+Proof.
+  intros R H. destruct (efs_inv _ _ _ _ _ H) as (_ & _ & _ & Hm).
+  destruct (find_file t (files s)) as [f|]; [|contradiction].
+  destruct Hm as ((F & HF & HFt & HFst & HFk) & _).
+  apply (writes_done_of_final s t a F R HF HFt HFk).
+  apply (ran_inv_reachable _ _ _ _ _ _ _ _ s R a F HF). now left.
+Qed.
+
+(** and in every state in which the file is published, whatever the status *)
+Theorem published_all_writes_done s t :
+  reachable s0 s -> published s t = true ->
+  forall k x, find_task k (tasks s) = Some x -> k_t x = t -> k_kind x = KIOWrite ->
+    past_main (k_st x) = true /\ k_main_ok x = true /\ k_skipped x = false /\ k_ran_main x = true.
+Proof.
+  intros R Hp. unfold published in Hp.
+  destruct (find_file t (files s)) as [f|] eqn:Ef; [|discriminate].
+  destruct (renamer_inv_reachable _ _ _ _ _ _ _ _ s R t f Ef Hp) as (kf & F & HF & HFt & HFk & _ & Hran).
+  exact (writes_done_of_final s t kf F R HF HFt HFk Hran).
+Qed.
+
+(** F5: at every moment the destination is either unpublished (previous
+    content) or published with every write performed -- whatever the status
+    (a cancel that raced the final rename included) *)
+Theorem cancel_old_or_complete s t :
+  reachable s0 s ->
+  published s t = false \/
+  (published s t = true /\
+   forall k x, find_task k (tasks s) = Some x -> k_t x = t -> k_kind x = KIOWrite ->
+     past_main (k_st x) = true /\ k_main_ok x = true /\ k_skipped x = false /\ k_ran_main x = true).
+Proof.
+  intros R. destruct (published s t) eqn:Ep; [right|left; reflexivity].
+  split; [reflexivity|]. now apply published_all_writes_done.
+Qed.
+End ReachD.
